@@ -154,6 +154,7 @@ func runC11(r *Run) {
 	checkPostponed(r)
 	checkAddressRoles(r, "C11.roles")
 	checkDelegationDumpLoad(r)
+	checkDumpLoadFields(r, "C11.dumpload", "(*data/delegation.DelegationStore).DumpState", "(*data/delegation.DelegationStore).LoadState")
 	r.Floor("C11.", 40)
 }
 
